@@ -19,10 +19,10 @@ import (
 // RealNode is a real replica.Server on a scratch directory behind the real replica/rest router.  The data path
 // calls Server.WriteAt/ReadAt/Sync/Unmap directly (what the RPC server calls).
 type RealNode struct {
-	idx    int
-	dir    string
-	srv    *replica.Server
-	router http.Handler
+	idx     int
+	dir     string
+	srv     *replica.Server
+	router  http.Handler
 	isClone bool // started with --type clone: its clone status is driven by the clone process, not set to NA
 }
 
